@@ -1,7 +1,7 @@
 --------------------------- MODULE ServerLifeProof ---------------------------
 (***************************************************************************)
 (* Machine-checked proof (TLAPS) over the definitions of ServerLife.tla    *)
-(* for the code as it is (LockOrderAsCode, CloseChannels), for ANY number  *)
+(* for the code as it is (LockOrderAsCode, CloseChannels, CloseForAllHandles), for ANY number *)
 (* of registrations and topics and any channel capacity:                   *)
 (*   - while shutdown closes and joins, it holds both locks and no         *)
 (*     registration is inside its critical section (Inv_ShutdownExclusive) *)
@@ -12,7 +12,7 @@
 (***************************************************************************)
 EXTENDS ServerLife, TLAPS
 
-ASSUME Asm == /\ LockOrderAsCode = TRUE /\ CloseChannels = TRUE
+ASSUME Asm == /\ LockOrderAsCode = TRUE /\ CloseChannels = TRUE /\ CloseForAllHandles = TRUE
               /\ 0 \notin Tasks /\ SD \notin Tasks /\ Cap \in Nat
 
 TPCs == {"want_lock", "locked", "want_hlock", "unlock", "sending", "served", "failed"}
@@ -24,6 +24,7 @@ TypeOK == /\ tpc \in [Tasks -> TPCs]
           /\ hlock \in {0, SD}
           /\ exists \in [Topics -> BOOLEAN] /\ closed \in [Topics -> BOOLEAN]
           /\ chan \in [Topics -> Nat] /\ done \in [Topics -> BOOLEAN] /\ drains \in [Topics -> BOOLEAN]
+          /\ stuck \in [Tasks -> BOOLEAN] /\ dropped \in [Topics -> BOOLEAN]
           /\ spc \in SPCs
 TaskLock == \A k \in Tasks : tpc[k] \in Crit <=> lock = k
 ShutLock == /\ spc \in {"run", "l1", "closed"} => (lock # SD /\ hlock = 0)
